@@ -39,7 +39,7 @@ def impl(mode, payload, timeout=1800):
 
 
 SMALL = dict(psinorm_core=0.8, psinorm_sol=1.2, psinorm_pf=0.9, ny_inner_divertor=4, ny_sol=8, ny_outer_divertor=4, nx_core=3, nx_sol=3,
-             target_all_poloidal_spacing_length=0.3, xpoint_poloidal_spacing_length=0.05, y_boundary_guards=1, number_of_processors=1, finecontour_Nfine=100, refine_timeout=600.0)
+             target_all_poloidal_spacing_length=0.3, xpoint_poloidal_spacing_length=0.05, y_boundary_guards=1, number_of_processors=1, finecontour_Nfine=100, refine_timeout=60.0)
 
 
 def roundtrip_variants(tier):
